@@ -193,6 +193,11 @@ fn pick_edit(p: &crate::gen::sem::Program, class: &str, pick: usize) -> Option<E
                     let next = toks.get(i + 1).map(|t| &text[t.1..t.2]).unwrap_or("");
                     !(matches!(&text[toks[i].1..toks[i].2], "=" | ":") && matches!(next, "{" | "[" | "."))
                 })
+                .filter(|&i| {
+                    // the `:` of an anonymous def/defm: without it the class reference reads as the record's name
+                    let prev = if i > 0 { &text[toks[i - 1].1..toks[i - 1].2] } else { "" };
+                    !(&text[toks[i].1..toks[i].2] == ":" && matches!(prev, "def" | "defm"))
+                })
                 .collect();
             let i = *cands.get(pick % cands.len().max(1))?;
             let prev_end = if i > 0 { toks[i - 1].2 } else { 0 };
